@@ -126,6 +126,22 @@ func (n *Node) Start() (err error) {
 	if n.Cfg.InvCheck > 0 {
 		appOpts["inv-check-period"] = uint(n.Cfg.InvCheck)
 	}
+	// the start command hands the node's whole configuration (app.toml / flags) to app.New as application options, next
+	// to deriving the baseapp options from it: the application can read every one of these
+	appOpts["minimum-gas-prices"] = n.Cfg.MinGasPrices
+	if n.Cfg.Pruning != "" {
+		appOpts["pruning"] = n.Cfg.Pruning
+		if n.Cfg.Pruning == "custom" {
+			appOpts["pruning-keep-recent"], appOpts["pruning-interval"] = "2", "10"
+		}
+	}
+	if n.Cfg.IAVLCache != 0 {
+		appOpts["iavl-cache-size"] = n.Cfg.IAVLCache
+	}
+	appOpts["iavl-disable-fastnode"] = n.Cfg.FastNodeOff
+	appOpts["inter-block-cache"] = n.Cfg.InterBlock
+	appOpts["trace"] = n.ID%2 == 1
+	appOpts["x-crisis-skip-assert-invariants"] = n.ID%3 == 2
 	n.App = app.New(simLogger{n}, n.DB, nil, true, appOpts, n.baseappOpts()...)
 	n.constructing = false
 	n.Up = true
